@@ -24,6 +24,20 @@ def _worker(args):
                 if isinstance(f.get('input'), dict):
                     f['input'].setdefault('_chunk', item)
         return ('ok', res)
+    except Exception as e:
+        # an exception raised INSIDE the code under test on an input the bounded module takes as valid is a failure of that work item
+        # (it cannot happen on a tree where the check passes); anything raised by the harness itself is a checker crash
+        tb = traceback.extract_tb(e.__traceback__)
+        repo = os.path.realpath(os.environ.get('VERIF_REPO', '/repo')) + os.sep
+        if tb and os.path.realpath(tb[-1].filename).startswith(repo):
+            where = '%s:%d in %s' % (os.path.relpath(tb[-1].filename, repo), tb[-1].lineno, tb[-1].name)
+            call = next((f for f in reversed(tb) if not os.path.realpath(f.filename).startswith(repo)), None)
+            mod = importlib.import_module(modname)
+            check = sorted(getattr(mod, 'RULES', {'%s.worker' % modname: ''}))[0]
+            return ('ok', [dict(check=check, function=where, n=1, keys=set(), samples=[],
+                                failures=[dict(input=dict(_chunk=item, raised_at=where, called_from=(call.line if call else None)),
+                                               what='the code under test raised %s: %s on an input of the bounded domain' % (type(e).__name__, str(e)[:160]))])])
+        return ('err', traceback.format_exc())
     except BaseException:
         return ('err', traceback.format_exc())
 
@@ -38,6 +52,11 @@ def replay_chunk(modname, check, inp):
     if item is None:
         return dict(note='this record carries no work item: re-run the check', input=inp)
     key = {k: v for k, v in inp.items() if k != '_chunk'}
+    if 'raised_at' in key:
+        st, res = _worker((modname, item))
+        if st == 'ok' and res and res[0].get('failures') and 'raised_at' in (res[0]['failures'][0].get('input') or {}):
+            return res[0]['failures'][0]
+        return None if st == 'ok' else dict(what='worker crashed', detail=res[-500:])
     for r in mod.work(item):
         if r['check'] != check:
             continue
